@@ -756,15 +756,35 @@ def _structural_descent(ctx, cg, scc: set) -> tuple:
                     part.add(tgt.id)
                 elif isinstance(val, (ast.Attribute, ast.Subscript)) and _rooted(val, whole | part):
                     part.add(tgt.id)
+        # local aliases of members: `recurse = partial(member, a, b)` / `recurse = member`
+        alias = {}
+        for n in walk_no_nested(fn):
+            if isinstance(n, ast.Assign) and len(n.targets) == 1 and isinstance(n.targets[0], ast.Name):
+                v = n.value
+                tgt_fn = None
+                if isinstance(v, ast.Call) and unparse(v.func) in ("partial", "functools.partial") and v.args:
+                    tgt_fn = v.args[0]
+                elif isinstance(v, (ast.Name, ast.Attribute)):
+                    tgt_fn = v
+                if tgt_fn is not None:
+                    hit = [q for q in members if q.split(".")[-1] == unparse(tgt_fn).split(".")[-1]]
+                    if len(hit) == 1:
+                        alias[n.targets[0].id] = hit[0]
         for c in walk_no_nested(fn):
             if not isinstance(c, ast.Call):
                 continue
+            if isinstance(c.func, ast.Name) and c.func.id in ("partial",) or unparse(c.func) == "functools.partial":
+                continue  # building the alias is not a call of the member
             shallow = ast.copy_location(ast.Call(func=c.func, args=[], keywords=[]), c)   # the callee of THIS call, not of calls in its arguments
             callees = cg.callees_in(f, shallow) & set(members)
+            if isinstance(c.func, ast.Name) and c.func.id in alias:
+                callees = callees | {alias[c.func.id]}
             args = list(c.args) + [k.value for k in c.keywords]
             # map(g, xs) / filter: g is applied to the elements of xs
             if isinstance(c.func, ast.Name) and c.func.id in ("map", "filter") and len(c.args) >= 2:
                 tgt_names = {q for q in members if isinstance(c.args[0], (ast.Name, ast.Attribute)) and q.split(".")[-1] == unparse(c.args[0]).split(".")[-1]}
+                if isinstance(c.args[0], ast.Name) and c.args[0].id in alias:
+                    tgt_names.add(alias[c.args[0].id])
                 for q in tgt_names:
                     if all(_rooted(_strip_iter(a), whole | part) for a in c.args[1:]):
                         n_desc += 1
